@@ -144,6 +144,10 @@ def plans(draw):
                                                                       "dsread", "array", "matrix")),
             "ykinds": [draw(st.sampled_from(KINDS[1:])), draw(st.sampled_from(KINDS[1:]))],
             "array_api": draw(st.sampled_from(["read", "read", "read_from_files"])),
+            # how the TreeArray is configured (constructor arguments): all combinations
+            "array_cfg": {"ignore_edge_lengths": draw(st.booleans()), "ignore_node_ages": draw(st.booleans()),
+                          "use_tree_weights": draw(st.sampled_from([True, True, False])),
+                          "check_ultrametricity": draw(st.booleans())},
             "pick": draw(st.integers(0, 1000))}
 
 
@@ -166,7 +170,8 @@ def rich_cases(draw, large=False):
     opts = draw(newick_options())
     want_weights = draw(st.booleans())
     recase = draw(st.integers(0, 3)) == 0
-    doc = draw(st.one_of(c13_docs.rich_newick_docs(max_taxa=6, max_trees=4 * k, recase=recase),
+    doc = draw(st.one_of(c13_docs.ultrametric_newick_docs(max_taxa=6, max_trees=4 * k, nexus=recase),
+                         c13_docs.rich_newick_docs(max_taxa=6, max_trees=4 * k, recase=recase),
                          c13_docs.rich_nexus_docs(max_taxa=5, max_trees=3, max_blocks=3, max_chars=6, recase=recase),
                          c13_docs.rich_nexus_docs(max_taxa=5, max_trees=3, max_blocks=3, max_chars=6, recase=recase)))
     if doc["features"]["weight"] and want_weights:
@@ -836,8 +841,17 @@ def split_rows(ta):
     for splits, lens in zip(ta._tree_split_bitmasks, ta._tree_edge_lengths):
         rows.append([[sorted(t.label for t in ns.bitmask_taxa_list(s)), L] for s, L in zip(splits, lens)])
     leafsets = [sorted(t.label for t in ns.bitmask_taxa_list(b)) for b in ta._tree_leafset_bitmasks]
+    sd = ta.split_distribution
+
+    def by_split(d):
+        return sorted([sorted(t.label for t in ns.bitmask_taxa_list(k)), jsonable(v)] for k, v in d.items())
     return {"splits": rows, "weights": list(ta._tree_weights), "leafsets": leafsets, "rooted": ta.is_rooted_trees,
-            "n": len(ta)}
+            "n": len(ta),
+            # what the array summarises from: per-split counts, edge lengths and node ages over all trees
+            "split_counts": by_split(sd.split_counts), "split_edge_lengths": by_split(sd.split_edge_lengths),
+            "split_node_ages": by_split(sd.split_node_ages), "total_trees_counted": sd.total_trees_counted,
+            "sum_of_tree_weights": sd.sum_of_tree_weights,
+            "rooting_types": sorted(map(repr, sd.tree_rooting_types_counted))}
 
 
 def check_tree_array(run, n, sizes):
@@ -846,15 +860,28 @@ def check_tree_array(run, n, sizes):
     kind = plan["kinds"]["array"]
     api = plan["array_api"]
 
+    cfg = plan.get("array_cfg") or {"ignore_edge_lengths": False, "ignore_node_ages": True, "use_tree_weights": True,
+                                    "check_ultrametricity": True}
+    akw = {"ignore_edge_lengths": cfg["ignore_edge_lengths"], "ignore_node_ages": cfg["ignore_node_ages"],
+           "use_tree_weights": cfg["use_tree_weights"]}
+    if not cfg["check_ultrametricity"]:
+        akw["ultrametricity_precision"] = False      # documented: ages of non-ultrametric trees are then accepted
+    ctx.cls("treearray_cfg:ignore_edge_lengths=%s,ignore_node_ages=%s" % (cfg["ignore_edge_lengths"], cfg["ignore_node_ages"]))
+    ctx.cls("treearray_cfg:use_tree_weights=%s" % cfg["use_tree_weights"])
+
     def reference(offset):
+        # an identically configured array filled with the trees the list route delivers
         ref_list = dendropy.TreeList.get(data=text, schema=schema, **dict(run.nskw(), **opts))
-        ta = dendropy.TreeArray(taxon_namespace=ref_list.taxon_namespace)
-        for t in ref_list[offset:]:
-            ta.add_tree(t)
+        ta = dendropy.TreeArray(taxon_namespace=ref_list.taxon_namespace, **akw)
+        if api == "read":
+            for t in ref_list[offset:]:
+                ta.add_tree(t)
+        else:
+            ta.add_trees(ref_list[offset:])
         return ta
 
     def via_read(extra):
-        ta = dendropy.TreeArray(taxon_namespace=run.target_ns())
+        ta = dendropy.TreeArray(taxon_namespace=run.target_ns(), **akw)
         if api == "read":
             r = ta.read(schema=schema, **dict(src.kw(kind), **dict(extra, **opts)))
         else:
@@ -886,7 +913,8 @@ def check_tree_array(run, n, sizes):
                   lambda: "%s; %s" % (first_diff(got, want), run.where()))
         # independent of add_tree: with use_tree_weights (the default) the array holds the weights the list route
         # delivers, a tree without weight counting 1.0
-        want_w = [1.0 if o["head"][2] is None else float(o["head"][2]) for o in run.base.trees[offset:]]
+        want_w = [1.0 if (o["head"][2] is None or not cfg["use_tree_weights"]) else float(o["head"][2])
+                  for o in run.base.trees[offset:]]
         total = ta.split_distribution.sum_of_tree_weights
         ctx.check(list(ta._tree_weights) == want_w and abs(total - sum(want_w)) <= 1e-9 * (1.0 + abs(sum(want_w))),
                   "tree_array_holds_the_delivered_tree_weights", "C13.weights:%s" % route,
@@ -902,6 +930,11 @@ def check_tree_array(run, n, sizes):
                       "shared_namespace_same_taxon_objects", "C13.taxon_identity:%s" % route,
                       "split bitmasks over the shared namespace differ; %s" % run.where())
         ctx.cls("treearray:compared")
+        if not cfg["ignore_node_ages"]:
+            ctx.cls("treearray:node_ages_compared:%s" % ("all_zero" if all(
+                a == 0 for k, v in want["split_node_ages"] for a in v) else "nonzero"))
+        if not cfg["ignore_edge_lengths"] and any(v for k, v in want["split_edge_lengths"]):
+            ctx.cls("treearray:edge_lengths_compared")
     if n and api == "read":
         # TreeArray.read documents collection_offset like TreeList.read
         i = plan["pick"] % len(sizes)
